@@ -233,8 +233,11 @@ static void child_report(const dsim::Result &r)
   write_all(g_child_fd, r.choices, r.nchoices);
 }
 
+static FILE *g_hashes_file = nullptr;  // explore: hashes of the runs completed so far must survive the _exit of an aborting run
+
 static void on_abort(const dsim::Result &r)
 {
+  if (g_hashes_file) fflush(g_hashes_file);
   if (g_mode == kChild) {
     child_report(r);
     _exit(0);
@@ -631,6 +634,7 @@ static int cmd_explore(std::map<std::string, std::string> &a)
   const uint64_t base = dsim::mix64(dsim::mix64(verif_seed, hash_str(prop)), hash_str(a["scenario"]) + static_cast<uint64_t>(family) * 7919 +
                                                                                 static_cast<uint64_t>(profile) * 104729);
   FILE *hf = a.count("hashes") ? fopen(a["hashes"].c_str(), "ab") : nullptr;
+  g_hashes_file = hf;
   FILE *tf = a.count("trace-hashes") ? fopen(a["trace-hashes"].c_str(), "a") : nullptr;  // determinism self-test
   const double t0 = now_s();
   uint64_t evals = 0, steps = 0, switches = 0, sw_api = 0, sim_ns = 0, spin_blocks = 0, graces = 0, uaf_notes = 0, nontrivial = 0;
@@ -722,6 +726,7 @@ static int cmd_explore(std::map<std::string, std::string> &a)
       samples.push_back(std::string(hdr) + g_scn->render(g_prog));
     }
   }
+  g_hashes_file = nullptr;
   if (hf) fclose(hf);
   if (tf) fclose(tf);
   const double wall = now_s() - t0;
